@@ -70,6 +70,7 @@ def gen_profile(rng, focus=None):
     p["int_kinds"] = rng.random() < 0.1  # dependency kinds given as the plain integers 0..3 (what the saved format holds)
     p["late_register"] = rng.random() < 0.12  # some tasks are registered in the workflow before they are linked, others after
     p["wp_targets_any"] = rng.random() < 0.15  # a workplace also lists tasks that have no component (`wp.extend_targeted_task_list(workflow.task_list)`)
+    p["same_group_ids"] = rng.random() < 0.08  # workplace IDs equal team IDs (IDs are unique per kind only)
     p["same_ids"] = rng.random() < 0.08  # facility IDs equal worker IDs (IDs are unique per kind only)
     p["wp_ctor_inputs"] = rng.random() < 0.25  # conveyor links handed to the workplace constructor (one-sided: no output lists)
     p.update(focus)
@@ -222,10 +223,13 @@ def gen_model(rng, p, n_tasks=None):
                         f["skills"]["t%d" % i] = rng.choice(SKILL)
                         if p["zero_skill"] and rng.random() < 0.1:
                             f["skills"]["t%d" % i] = 0.0
+                for i in comp_tasks:
+                    if i not in targets and rng.random() < 0.15:
+                        f["skills"]["t%d" % i] = rng.choice(SKILL)  # skilled for a task its workplace is not assigned to
                 if p["solo"] and rng.random() < 0.3:
                     f["solo"] = True
                 facs.append(f)
-            wp = {"id": "p%d" % k, "cap": rng.choice(TIGHT_CAPS if p.get("tight") else CAPS), "targets": targets, "inputs": [], "facs": facs}
+            wp = {"id": ("m%d" if p.get("same_group_ids") else "p%d") % k, "cap": rng.choice(TIGHT_CAPS if p.get("tight") else CAPS), "targets": targets, "inputs": [], "facs": facs}
             if p["conveyor"] and k > 0:
                 wp["inputs"] = [i for i in range(k) if rng.random() < 0.5]
             wps.append(wp)
